@@ -12,7 +12,11 @@ LEVELS = {
     "g": ["u", "t", "s"],
     "h": ["q", "p", "r", "o"],
     "k": [3, 1, 2],
+    "kb": [1000002, 999999, 1000001],  # ids of seven digits
+    "kf": [1000001.0, 0.5, 1000002.0],  # ids read as floats
 }
+LEVELS["wid"] = [f"G{i:03d}" for i in range(260)]  # a grouping factor with a few hundred groups
+NUMERIC_LEVELS = {"k": np.int64, "kb": np.int64, "kf": np.float64}
 NUMS = ["x", "z"]
 CATS = ["f", "g", "h"]
 
@@ -20,7 +24,7 @@ CATS = ["f", "g", "h"]
 def used_vars(formula):
     """variable names (from our fixed vocabulary) that occur in the formula text"""
     names = set(re.findall(r"[A-Za-z_][A-Za-z0-9_.]*", formula))
-    return [v for v in ["y", "x", "z", "f", "g", "h", "k", "w", "n", "s", "w12", "q1"] if v in names]
+    return [v for v in ["y", "x", "z", "f", "g", "h", "k", "kb", "kf", "wid", "w", "n", "s", "w12", "q1"] if v in names]
 
 
 def cat_rows(cats, order, reps=1):
@@ -54,8 +58,8 @@ def build_frame(env, formula_vars, flavour="str", order="sorted", reps=1, min_ro
     for v in formula_vars:
         if v in LEVELS:
             vals = [r[v] for r in rows]
-            if v == "k":
-                cols[v] = np.array(vals, dtype=np.int64)
+            if v in NUMERIC_LEVELS:
+                cols[v] = np.array(vals, dtype=NUMERIC_LEVELS[v])
             elif flavour == "str":
                 cols[v] = vals
             elif flavour == "cat":
@@ -78,7 +82,7 @@ def build_frame(env, formula_vars, flavour="str", order="sorted", reps=1, min_ro
 
 def level_order(var, flavour):
     """expected order of the levels of a categorical variable"""
-    if var == "k" or flavour in ("str", "cat"):
+    if var in NUMERIC_LEVELS or flavour in ("str", "cat"):
         return sorted(LEVELS[var], key=lambda v: v)
     return list(LEVELS[var])
 
